@@ -98,7 +98,7 @@ def run(ctx: Ctx):
     limit = 400_000 if ctx.thorough else 70_000
     ML.init(1)
     drv = ctx.driver()
-    fam = MS.gen_family(ctx, drv, n, limit, MIX_THOROUGH if ctx.thorough else MIX_QUICK)
+    fam = MS.family(ctx, drv, n, limit, MIX_THOROUGH if ctx.thorough else MIX_QUICK)
     ctx.cov["mapspace_sizes"] = [sz for _, _, sz in fam]
     ctx.cov["timing"] = {"family_s": round(ctx.elapsed(), 1)}
     # real mapper (worker processes) -----------------------------------------------------------------------------------
@@ -189,7 +189,17 @@ def run(ctx: Ctx):
             usage_ok = all(u is None or u <= 1 + 1e-9 for u in (ev.get("usage") or {}).values())
             if real is not None and usage_ok and ML.close(real, float(refv), 1e-4) and (b_map is None or real < b_map * (1 - MS.REL)):
                 feats = "+".join(MS.mapping_features(desc, ms))
-                if kind == "mapper-finds-nothing":
+                strict = scans[i]["strict"].get(metric)
+                # the delimited finding: the better mapping fills a memory exactly and the mapper is as good as the optimum over
+                # the mappings that fill no memory exactly (Lean: exactly_full_counterexample / refBest_eq_strict_partial)
+                explained = MS.exactly_full(ev) and (
+                    (b_map is None and strict is None) or
+                    (b_map is not None and strict is not None and b_map <= float(strict[0]) * (1 + MS.REL)))
+                rep["ref_best_strict"] = None if strict is None else str(strict[0])
+                if explained:
+                    ctx.fail(MS.KNOWN_FULL, "a valid mapping that fills a memory exactly (accepted by evaluate_mapping with usage 1.0) is strictly "
+                             "better than the mapper's best; the mapper returns the optimum over the strictly fitting mappings", rep)
+                elif kind == "mapper-finds-nothing":
                     ctx.fail(f"mapper-finds-nothing:{feats}", "the mapper returns no mapping although a valid one exists (accepted by evaluate_mapping)", rep)
                 else:
                     ctx.fail(f"suboptimal:{MNAME[metric]}:{feats}",
